@@ -261,6 +261,49 @@ func c17Real(c *Ctx) {
 			}
 			c.Stat("real_chtimes")
 		}
+		// owner and mode through every setter the client has, by path and by open handle: the file system must show exactly
+		// what was asked for (chown needs root, which this sandbox runs as; without it the case is recorded as skipped)
+		for si, setter := range []string{"Client.Chown", "File.Chown", "Client.Chmod", "File.Chmod"} {
+			target := filepath.Join(dir, "settime")
+			rtarget := filepath.Join(base, "settime")
+			uid, gid, mode := 1234+si, 5678+si, os.FileMode(0o600+si*0o11)
+			var serr error
+			switch setter {
+			case "Client.Chown":
+				serr = p.Client.Chown(rtarget, uid, gid)
+			case "Client.Chmod":
+				serr = p.Client.Chmod(rtarget, mode)
+			default:
+				f, err := p.Client.OpenFile(rtarget, os.O_RDWR)
+				if err != nil {
+					serr = err
+					break
+				}
+				if setter == "File.Chown" {
+					serr = f.Chown(uid, gid)
+				} else {
+					serr = f.Chmod(mode)
+				}
+				f.Close()
+			}
+			got, _ := lsnap(target)
+			n := c.Case("real_setowner", kvs("setter", setter), kvb("workdir", cfg.workDir != ""), kvb("alloc", cfg.alloc))
+			c.NT(n)
+			c.Stat("real_setowner")
+			switch {
+			case serr != nil && os.Geteuid() != 0 && strings.HasSuffix(setter, "Chown"):
+				c.Stat("real_setowner_skipped_not_root")
+				c.Oracle(n, true, "")
+			case serr != nil:
+				c.Oracle(n, false, setter+": "+serr.Error())
+			case strings.HasSuffix(setter, "Chown") && (int(got.UID) != uid || int(got.GID) != gid):
+				c.Oracle(n, false, fmt.Sprintf("%s(%d, %d) left owner %d:%d on the file", setter, uid, gid, got.UID, got.GID))
+			case strings.HasSuffix(setter, "Chmod") && got.Mode.Perm() != mode:
+				c.Oracle(n, false, fmt.Sprintf("%s(%v) left mode %v on the file", setter, mode, got.Mode.Perm()))
+			default:
+				c.Oracle(n, true, "")
+			}
+		}
 		listed, lerr := p.Client.ReadDir(base)
 		byName := map[string]os.FileInfo{}
 		for _, fi := range listed {
